@@ -218,6 +218,7 @@ UNITS['c01'] = {
     'template': 'contracts/c01.vrs',
     'rlimit': 30,
     'mutants': [
+        ('duplicate_resource_path_not_rejected', 'if ({ let mut __r4_1 = false;', 'if false && ({ let mut __r4_1 = false;', ['C02.paths.eval_program']),
         ('duplicate_path_variable_not_rejected', 'if let Some(p) = rel.uri.duplicate_variable() {', 'if let (Some(p), false) = (rel.uri.duplicate_variable(), true) {', ['C03.path.eval_program']),
         ('headers_guard_removed', 'if !matches!(rhs.0.dereference(), Expr::Object(_)) {', 'if false {', ['C01.site.eval_content']),
         ('domain_guard_removed', 'if !value.0.is_content_like() {', 'if false {', ['C01.site.eval_transfer']),
@@ -286,12 +287,12 @@ PROPS = {
         'not_decided': ['preservation (that the inferred tag describes the evaluated value)', 'termination of evaluation / stack depth', 'compose_annotations (YAML annotation parsing); eval_literal is total relative to the lexer invariant "a literal token carries a value of its kind" (unit lex, stated as a precondition), eval_primitive and the `eval` entry point are total; eval_application / eval_variable / eval_binding / eval_declaration / eval_recursion and the eval_any dispatcher are under contract since 12.8-12.12, their panics being excluded relative to stated preconditions (definition slots set by the resolver, the applied identifier has a function tag, the binder\'s frame is on the stack, the node kind is one of the 19 evaluable kinds)', 'emitter unreachable!/expect sites (oal-openapi)', 'loader/ModuleSet unwraps'],
     },
     'C02': {
-        'units': ['c02', 'c03'],
+        'units': ['c02', 'c03', 'c01'],
         'level': 'other',
         'obligation_prefixes': ['C02.'],
         'technique': 'Verus contracts on the real emitter functions Builder::{all_paths, relation_path_item, xfer_params, xfer_request, domain_request, xfer_responses, content_headers, prop_header, method_label} over mirrored openapiv3 field lists and the real spec::{Transfer, Relation, Spec, Content, Object} types',
         'level_text': 'Deductive proof (Verus/Z3) of the structural skeleton of the translation, for every evaluated program: all_paths emits exactly one path item per resource, keyed by the resource\'s URI pattern, in program order '
-                      '(precondition: the patterns are pairwise distinct — equal patterns would collapse in the IndexMap); relation_path_item fills, for every declared method, exactly that method\'s slot with an operation whose id, description, tags, parameters, '
+                      '(precondition: the patterns are pairwise distinct — established by the real eval_program, unit c01: found failing on the tree, repaired by fix 73f530c, DESIGN 12.36); relation_path_item fills, for every declared method, exactly that method\'s slot with an operation whose id, description, tags, parameters, '
                       'request body and responses are built from THAT method\'s transfer, and leaves every other slot empty; xfer_params lists every declared query parameter and every request header once, in order; '
                       'domain_request emits a request body exactly when the request content has a schema, with one media type (declared or default) carrying that schema and the content\'s examples; '
                       'xfer_responses gives every response object the headers and description of the last declared alternative of its status and drops no declared range: every (status, media type) alternative with a schema has its media type, schema and examples in the response of its status (the default response when it has none) — '
